@@ -9,11 +9,30 @@ from sylib import *
 import engine_stream as es
 
 OWN = (".sy-dir-cache.json", ".sy-checksums.db", ".sy-state.json")
-DAMAGE = ["truncate", "garbage", "version", "wrong-schema", "empty", "valid-but-foreign"]
+DAMAGE = ["truncate", "garbage", "version", "wrong-schema", "empty", "valid-but-foreign", "valid-resume-state"]
 
-def damage(rng, dst_root, tag):
+def valid_resume_state(dst_root, src_root, completed, delete=False):
+    """a resume state file that passes ResumeState::load's integrity check and is compatible with the run's flags (what an
+    older version, or a copied destination, leaves behind): it lists `completed` as already transferred"""
+    st = {"version": 1, "source": os.path.abspath(src_root), "destination": os.path.abspath(dst_root),
+          "started_at": "2020-01-01T00:00:00+00:00", "checkpoint_at": "2020-01-01T00:00:05+00:00",
+          "flags": {"delete": bool(delete), "exclude": [], "min_size": None, "max_size": None},
+          "completed_files": [{"relative_path": r, "action": "create", "size": 1, "checksum": "xxhash3:0", "completed_at": "2020-01-01T00:00:02+00:00"} for r in completed],
+          "total_files": len(completed) + 3, "total_bytes_transferred": len(completed)}
+    open(os.path.join(dst_root, ".sy-state.json"), "w").write(json.dumps(st))
+
+def damage(rng, dst_root, tag, delete=False):
     name = rng.pick(OWN); p = os.path.join(dst_root, name)
     kind = rng.pick(DAMAGE)
+    if kind == "valid-resume-state":
+        # lists every current source file as completed: whatever was edited since must still be compared and transferred
+        src_root = os.path.join(os.path.dirname(dst_root), "src"); done = []
+        for dp, dn, fn in os.walk(src_root):
+            for n in fn: done.append(os.path.relpath(os.path.join(dp, n), src_root))
+        try: done = [r for r in done if r.encode("utf-8", "strict")]
+        except UnicodeEncodeError: done = [r for r in done if r.isascii()]
+        valid_resume_state(dst_root, src_root, sorted(done)[:40], delete=delete)
+        return ".sy-state.json:valid-resume-state"
     if kind == "truncate":
         if os.path.exists(p):
             d = open(p, "rb").read(); open(p, "wb").write(d[:max(1, len(d) // 2)])
@@ -119,7 +138,7 @@ def run(tier="quick", seed=1, work=None, replay=None, focus="C18", ncases=None):
                         # the same edit in both worlds (same PRNG)
                         ra, rb = Rng(r.s), Rng(r.s)
                         oa = edit(ra, os.path.join(A, "src"), clock); ob = edit(rb, os.path.join(B, "src"), clock); ops.append(oa)
-                    if rng.chance(1, 3): ops.append("sabotage:" + damage(rng, os.path.join(A, "dst"), st))
+                    if rng.chance(1, 3): ops.append("sabotage:" + damage(rng, os.path.join(A, "dst"), st, delete=("--delete" in common)))
                 hist.append(ops)
                 # a damaged cache file stays damaged (and is read as empty) until a successful run saves a new one
                 if any(o.startswith("sabotage:.sy-dir-cache.json") for o in ops): cache_damaged = True
